@@ -260,7 +260,7 @@ def assembleMemberAttrs (fieldTy : Option TS) : List MemberInstruction → Membe
     | .as_ a =>
       match fieldTy with
       | some ty => assembleMemberAttrs fieldTy rest { attrs with attrs := attrs.attrs ++ addAsTypeAttrs ty a }
-      | none => .error (.panic "attr.rs:get_member_attrs:unreachable(1)")
+      | none => .error (.o2o "Member instruction 'as_type' is not applicable to enum variants.")
     | .lit a => assembleMemberAttrs fieldTy rest { attrs with litAttrs := attrs.litAttrs ++ [a] }
     | .pat a => assembleMemberAttrs fieldTy rest { attrs with patAttrs := attrs.patAttrs ++ [a] }
     | .repeat_ a => assembleMemberAttrs fieldTy rest { attrs with repeat_ := some a }
